@@ -1193,11 +1193,24 @@ class Exec:
                 return st.alloc(self.c, Arr((a.shape[1], a.shape[0]), lambda ix, a=a: a.elem((ix[1], ix[0])), a.kind))
         return FuncV('arrmeth', attr, self_val=ref)
 
+    def _elts(self, node, st):
+        out = []
+        for e in node.elts:
+            if isinstance(e, ast.Starred):          # [a, *xs, b]: the elements of a list/tuple of concrete length
+                lo, hi, elem = self.iter_value(self.eval(e.value, st), st, node)
+                clo, chi = conc_int(lo), conc_int(hi)
+                if clo is None or chi is None:
+                    raise Unsupported('starred sequence of symbolic length')
+                out += [elem(k, st) if elem else k for k in range(clo, chi)]
+            else:
+                out.append(self.eval(e, st))
+        return out
+
     def ev_Tuple(self, node, st):
-        return tuple(self.eval(e, st) for e in node.elts)
+        return tuple(self._elts(node, st))
 
     def ev_List(self, node, st):
-        return st.alloc(self.c, PyList([self.eval(e, st) for e in node.elts]))
+        return st.alloc(self.c, PyList(self._elts(node, st)))
 
     def ev_Dict(self, node, st):
         d = {}
@@ -1411,6 +1424,12 @@ class Exec:
             if isinstance(op, ast.NotEq):
                 return a != b
             raise Unsupported('ordering on str/None')
+        if isinstance(op, (ast.Eq, ast.NotEq)):
+            la = isinstance(a, Ref) and isinstance(st.get(a), PyList)
+            lb = isinstance(b, Ref) and isinstance(st.get(b), PyList)
+            if la != lb and not isinstance(b if la else a, (Ref, tuple)):
+                # a python list compared with a number: never equal (no broadcasting, unlike arrays)
+                return isinstance(op, ast.NotEq)
         if isinstance(a, tuple) and isinstance(b, tuple) and isinstance(op, (ast.Eq, ast.NotEq)):
             if len(a) != len(b):
                 r = False
